@@ -5,7 +5,7 @@ from .. import frame as FR, rules_g as G, paramalg as pa, rules_k as K
 
 R_EXPR = 'fn_add(INT($digest), INT(X(g_mul(rand#1))))'
 R_ALT = 'fn_add(INT(X(g_mul(rand#1))), INT($digest))'
-ZA_SEQ = ['u16((MulWithOverflow(len($id), 8).0 as u16))', 'LOOP(byte:each(bytes($id)))', 'BE(plain(SM2_MODP_MONT_A))', 'BE(plain(SM2_MODP_MONT_B))',
+ZA_SEQ = ['to_be_bytes:u16((MulWithOverflow(len($id), 8).0 as u16))', 'LOOP(byte:each(bytes($id)))', 'BE(plain(SM2_MODP_MONT_A))', 'BE(plain(SM2_MODP_MONT_B))',
           'BE(SM2_G_X)', 'BE(SM2_G_Y)', 'X($pk)', 'Y($pk)']
 # accepted idioms for "the ID bytes": a byte loop, or one extend of the bytes
 ZA_ID_IDIOMS = ('LOOP(byte:each(bytes($id)))', '$id', 'as_bytes($id)')
